@@ -178,4 +178,36 @@ example :
     (List.range 5).map (selectWindow (ofList [0, 1, 1001/1000, 1002/1000, 2]) (1/100) (-1) (2003/2000) 5 false)
       = [true, false, false, false, false] := by decide +kernel
 
+/-! ## the threshold the user gives is the threshold of the blocks (boundary value 0) -/
+
+/-- T1'' (threshold 0).  With `degen_thresh = 0` — the boundary value of "gap at most the threshold" — exactly
+    degenerate bands are never separated: a block boundary inside the band range sits between two DIFFERENT
+    energies; for sorted bands: strictly increasing across every boundary. -/
+theorem zero_threshold_keeps_exact_ties (E : Nat → Rat) (n : Nat) (kr : Bool) (a b : Nat)
+    (hab : (a, b) ∈ blocks E 0 n kr) :
+    (0 < a → E (a - 1) < E a) ∧ (b < n → E (b - 1) < E b) := by
+  obtain ⟨h1, h2, _⟩ := blocks_boundary_gap E 0 n kr a b hab
+  exact ⟨fun h => by have := h1 h; linarith, fun h => by have := h2 h; linarith⟩
+
+/-- the hand-over of the user's threshold to the grouping: the code passes it on unchanged; the seeded rule
+    W-C15 ("a non-positive threshold switches grouping off": 0 ↦ −1) is the alternative -/
+def handOver (seeded : Bool) (user : Rat) : Rat := if seeded && decide (user ≤ 0) then -1 else user
+
+/-- for every threshold the blocks used with the code's hand-over are the blocks of the user's threshold;
+    the seeded hand-over agrees with it for every POSITIVE threshold (that is why it hid) -/
+theorem handOver_faithful (E : Nat → Rat) (n : Nat) (kr : Bool) (user : Rat) :
+    blocks E (handOver false user) n kr = blocks E user n kr ∧
+      (0 < user → blocks E (handOver true user) n kr = blocks E user n kr) := by
+  refine ⟨by simp [handOver], fun h => ?_⟩
+  have : ¬ user ≤ 0 := not_le.mpr h
+  simp [handOver, this]
+
+/-- … and at threshold 0 it splits an exactly degenerate pair: bands `[0, 0, 3]` -/
+theorem seeded_handOver_splits_exact_pair :
+    blocks (ofList [0, 0, 3]) (handOver false 0) 3 false = [(0, 2), (2, 3)] ∧
+    blocks (ofList [0, 0, 3]) (handOver true 0) 3 false = [(0, 1), (1, 2), (2, 3)] := by
+  decide +kernel
+
+example : (0, 2) ∈ blocks (ofList [0, 0, 3]) 0 3 false := by decide +kernel
+
 end WB.C15
